@@ -580,3 +580,16 @@ Proof.
   pose proof (document_roundtrip _ Hp Hw') as Hd. rewrite run_program_pure in Hd by exact Hp.
   unfold run_program. rewrite He. cbn [appended w_out w_init w_indent fst snd] in *. split; [exact Hd|reflexivity].
 Qed.
+
+(* lossless: two programs that make the writer return the same bytes describe the same document *)
+Theorem same_bytes_same_document l1 l2 :
+  forallb pure l1 = true -> Forall wf l1 -> forallb data_ok l1 = true ->
+  forallb pure l2 = true -> Forall wf l2 -> forallb data_ok l2 = true ->
+  fst (run_program l1) = fst (run_program l2) -> flat_map doc_of l1 = flat_map doc_of l2.
+Proof.
+  intros P1 W1 D1 P2 W2 D2 E.
+  destruct (document_meaning l1 P1 W1 D1) as (d1 & Hp1 & Hs1).
+  destruct (document_meaning l2 P2 W2 D2) as (d2 & Hp2 & Hs2).
+  rewrite E in Hp1. rewrite Hp1 in Hp2. injection Hp2 as ->.
+  rewrite Hs1 in Hs2. injection Hs2 as H. exact H.
+Qed.
